@@ -96,8 +96,12 @@ def check(ctx):
             w = writes[0]
             rhs = show(N.term(w["node"]["r"], syms))
             import re as _re
-            gs = [_re.sub(r"^let v1::Some\([$_(),]*\)=", "let v1::Some(..)=", g) for g in w["guards"]]      # which parts of the hit are bound does not matter
-            ok = gs == visit + ["let v1::Some(..)=" + ID, "let v1::Some(..)=" + FIND] \
+            # under the traversal guards, the write happens iff the argument is a lone ident AND that ident is a mapped parameter - however
+            # the two tests are spelled (nested if-lets, and_then + match, ..): the remaining guards are compared as one condition
+            wc = show(q.guard_condition(w["gterms"][len(visit):]) or ("lit", True))
+            wc = _re.sub(r"let v1::Some\([$_(),]*\)=", "let v1::Some(..)=", wc)      # which parts of the hit are bound does not matter
+            WCOND = "(let v1::Some(..)=%s&&let v1::Some(..)=%s)" % (ID, FIND)
+            ok = w["guards"][:len(visit)] == visit and wc == WCOND \
                 and q.term_matches(rhs, "TypePath::to_syn_type(%s@v1::Some.0.1,%s)" % (FIND, ANY))
             detail = "the write is `%s` under %s" % (rhs[:200], w["guards"])
         ctx.expect(ok, "C07.7", "replacer/write", rf["sp"],
@@ -107,9 +111,15 @@ def check(ctx):
         detail = "%d recursive calls" % len(recs)
         if ok:
             args = [show(N.term(a, syms)) for a in recs[0]["args"]]
-            g = [e["guards"] for e in effs if e["node"] is recs[0]]
-            ok = args == ["TY@Type::Path.0.path", "P1", "P2"] and g and g[0] == visit
-            detail = "recursive call with %s under %s" % (args, g[0] if g else "?")
+            g = [e for e in effs if e["node"] is recs[0]]
+            ok = args == ["TY@Type::Path.0.path", "P1", "P2"] and bool(g) and g[0]["guards"][:len(visit)] == visit
+            if ok and len(g[0]["guards"]) > len(visit):
+                # a further guard is fine iff it is exactly "the argument was not replaced" (the complement of the write's condition)
+                from ..core.norm import _not
+                rc = q.guard_condition(g[0]["gterms"][len(visit):])
+                rcs = _re.sub(r"let v1::Some\([$_(),]*\)=", "let v1::Some(..)=", show(_not(rc)))
+                ok = rcs == "(let v1::Some(..)=%s&&let v1::Some(..)=%s)" % (ID, FIND)
+            detail = "recursive call with %s under %s" % (args, g[0]["guards"] if g else "?")
         ctx.expect(ok, "C07.7", "replacer/recursion", rf["sp"],
                    "every angle-bracketed type-path argument of every segment is searched recursively with the same mapping", detail)
     expect_fn(ctx, "C07.7", "replacer/ident-shape", "substitutes::get_ident_from_type_path",
